@@ -42,6 +42,7 @@ type FuncContract struct {
 	HasDynMod  bool
 	UnknownLikeDyn bool // calls without a contract are assumed to respect the dyncall frame
 	SendPre    []*Clause // obligations on every channel send of the function (`ch` = the channel)
+	LitPred    string    // spec predicate assumed of every string literal of the function body (e.g. safe)
 	NoMonitor  bool      // exempt from re-establishing monitor invariants (configuration-time function)
 	AtUnlock   []*Clause // assertions checked at every Unlock of the function (may mention locals and atlock())
 	Checks     []*Clause // internal postconditions (may mention locals; not exported to callers)
@@ -112,7 +113,7 @@ func newContracts() *Contracts {
 	return &Contracts{Funcs: map[string]*FuncContract{}, Specs: map[string]*SpecFunc{}, Decls: map[string][]string{}}
 }
 
-var keywordRe = regexp.MustCompile(`^(func|requires|ensures_on_panic|ensures|check|functional|closeonce|callpre|dyncall|ghost|atunlock|sendpre|nomonitor|unknowncalls|modifies|pure|trusted|strict|mathint|maypanic|nobody|loop|param|spec|axiom|lemma|monitor|allocbound|decl)\b`)
+var keywordRe = regexp.MustCompile(`^(func|requires|ensures_on_panic|ensures|check|functional|closeonce|callpre|dyncall|ghost|atunlock|sendpre|nomonitor|unknowncalls|literals|modifies|pure|trusted|strict|mathint|maypanic|nobody|loop|param|spec|axiom|lemma|monitor|allocbound|decl)\b`)
 
 // preprocess rewrites `A ==> B` into implies(A, B) (lowest precedence within its paren group)
 // and `A <==> B` into iff(A, B).
@@ -349,6 +350,10 @@ func (cs *Contracts) parseContractFile(path string, content []byte, pkgName stri
 		case "unknowncalls":
 			if cur != nil {
 				cur.UnknownLikeDyn = true
+			}
+		case "literals":
+			if cur != nil {
+				cur.LitPred = strings.TrimSpace(rest)
 			}
 		case "atunlock":
 			if cur == nil {
